@@ -10,11 +10,13 @@
 //! Bounds (per coordinate, font vs `ot_round(source)`):
 //!  * default master: exact;
 //!  * another master L, simple glyph with line/quadratic segments:
-//!    0.5 + 0.5 * sum(|scalar| of the gvar tuples active at L)
+//!    0.5 + 0.5 * sum(|scalar| of the gvar tuples active at L that leave the point to IUP inference)
 //!    (fontc rounds every master's coordinates to integers, computes each master's delta as
 //!    round(value - sum of earlier contributions) so the reconstruction at a master is off by one
-//!    rounding = 0.5; IUP optimisation may replace every tuple's delta by an inferred one within its
-//!    tolerance 0.5, which enters scaled by that tuple's scalar);
+//!    rounding = 0.5; IUP optimisation may replace a tuple's delta of a point by an inferred one
+//!    within its tolerance 0.5, which enters scaled by that tuple's scalar; a point that a tuple
+//!    references explicitly carries its exact delta there. This is never larger than the
+//!    statement's 0.5 + 0.5 * sum of all active scalars);
 //!  * component offsets: 0.5 (composites get no IUP);
 //!  * an on-curve point that the compiler left implied (legal when it is the midpoint of its two
 //!    off-curve neighbours in every master) is compared through the midpoint of the instantiated
@@ -1438,7 +1440,7 @@ fn main() {
     let nchunks = cases.len().div_ceil(chunk);
     let started = std::time::Instant::now();
     // a safety net for an overloaded machine; a normal run finishes far below it
-    let cap_s: u64 = args.tier.pick(300, 1500);
+    let cap_s: u64 = args.tier.pick(50, 1100);
     let results = vcore::par_for(nchunks, vcore::ncores(), |ci| {
         let mut st = Stats::default();
         let mut viol: Vec<(String, String, usize, Value)> = vec![];
@@ -1527,6 +1529,8 @@ fn main() {
     }
     rep.assume("normalized master grid {-1,0,1}^n + (0.5,0,..) (+ a layer master at (0.5,0,..)/(0.25,0,..) or (0.5,0.5,..)): every location is F2Dot14-exact, so instantiation happens exactly at the master (measured: locations_off_master_by_quantisation)");
     rep.assume("closed contours of line / qcurve / cubic segments, two contours per simple glyph, identity-2x2 components; open contours, single points and transformed components are not enumerated");
+    rep.assume("per-coordinate bound against ot_round(source): 0 at the default master; elsewhere 0.5 (one delta rounding) + 0.5*|scalar| for every active gvar tuple that omits the point (IUP tolerance), which is <= the statement's 0.5 + 0.5*sum(active scalars); component offsets 0.5; measured tightness in counts.max_err_over_bound");
+    rep.assume("a run on an overloaded machine stops starting new designs after 50 s (quick) / 1100 s (thorough), largest master sets last, and then reports exhaustive=false with counts.designs_skipped_by_time_cap");
     rep.assume("the start point of a contour is free (contours are compared as cyclic sequences; one rotation must serve all masters); an on-curve point may be left implied only where the instantiated neighbours' midpoint reproduces it within the bound + 0.5");
     rep.assume("cubic sources are compared as curves (sampled symmetric Hausdorff distance, 16 samples per quadratic / 32 per cubic segment), not point for point: the joint cu2qu conversion fixes the structure only");
     rep.assume("a design the compiler refuses is counted (designs_not_compiled), not judged; at masters where a sparse glyph has no drawing nothing is asserted");
